@@ -5,7 +5,18 @@ import sys
 import os
 from . import boot
 
+import signal
+import threading
+
 mon = sys.monitoring
+WALL_LIMIT = float(os.environ.get('VERIF_WALL_LIMIT', '30'))
+
+
+def _on_alarm(signum, frame):
+    M.overrun = True
+    raise BudgetExceeded('wall clock')
+
+
 TOOL = 4
 _PREFIX = os.path.realpath(boot.REPO) + os.sep
 
@@ -80,6 +91,13 @@ def run(limit, func, *args, **kw):
     M.count = 0
     M.limit = limit
     M.overrun = False
+    # backstop for work the step meter cannot see (a regular expression backtracking inside the C library, a huge integer
+    # conversion): a wall-clock alarm, generous enough (WALL_LIMIT seconds for calls that take micro- to milliseconds) never to
+    # fire on a loaded machine; it turns a hang of the check into an 'overrun' verdict
+    alarm = threading.current_thread() is threading.main_thread()
+    if alarm:
+        old = signal.signal(signal.SIGALRM, _on_alarm)
+        signal.setitimer(signal.ITIMER_REAL, WALL_LIMIT)
     try:
         try:
             v = func(*args, **kw)
@@ -92,6 +110,9 @@ def run(limit, func, *args, **kw):
             v, st = e, 'raise'
     finally:
         M.limit = None
+        if alarm:
+            signal.setitimer(signal.ITIMER_REAL, 0)
+            signal.signal(signal.SIGALRM, old)
     steps = M.count
     if M.overrun:
         return 'overrun', None, steps
